@@ -81,7 +81,7 @@ CHECKS = {
              "groups/PEL/consumers, module-aux sub-opcodes), all expiry/idle/freq prefixes. All words up to the stated lengths are parsed by the real "
              "Loader through a whole-buffer and a one-byte-per-read source and compared record by record (db, key, type, expiry ms, idle, freq, payload == "
              "type|file bytes|version|CRC64 computed by a bitwise reference), then EOF and footer. Pairs/triples expose state carried between records. "
-             "Hashes beyond 16 MiB are checked for the chunk records' concatenation. In the chunked-hash cases the consumer renames every delivered record before it asks for the next piece (as the restore routine does for hash-tag replacement): later pieces must still carry the file's key and database.",
+             "Hashes beyond 16 MiB are checked for the chunk records' concatenation. In the chunked-hash cases the consumer renames every delivered record before it asks for the next piece (as the restore routine does for hash-tag replacement): later pieces must still carry the file's key and database. The big records are loaded through a reader that never returns more than 1 MiB - 3 (with expiry: 64 KiB + 1) bytes per read.",
         note="trusts rdbgen/rdbcat (written from rdb.h/rdb.c, self-checking LZF) and crcref; header versions 1-4 are driven without a checksum trailer; bounds on word length and on the alphabet are stated in the evidence",
         rule="case = (word of alphabet items, header version, reader mode); states = distinct word prefixes (trie nodes) plus distinct dumped loader states (db, remainMember, lastReadCount, totMemberCount); transitions = parser runs; non-trivial = word contains at least one key or Lua record",
         parts=[dict(pkg="./pkg/rdb", harness=["rdb"], test="^TestVerif_C01$", shards=16, budget=dict(quick=90, thorough=1500), mem_kb=8*1024*1024,
@@ -114,7 +114,7 @@ CHECKS = {
              "every list/set/hash/zset of size 0..3 over it, every (sign, exponent, 5 mantissas) float64 pattern as score; every compact encoding of the "
              "catalogue (ziplist with all entry encodings, intset widths, zipmap incl. long items, quicklist, LZF, int strings) goes through the real "
              "parser and DecodeDump and must equal the logical value the independent writer built it from; all (db,key,expiry,object) sequences up to "
-             "length 2 (3 over a reduced alphabet) are written with the file encoder and loaded back, footer verified; BinEntry<->ObjEntry.",
+             "length 2 (3 over a reduced alphabet) are written with the file encoder and loaded back, footer verified; BinEntry<->ObjEntry. Files with a 1.5 MiB string and with a list element of 1.2 MiB are loaded through a reader that answers in pieces of at most 70001 bytes.",
         note="trusts rdbgen's notion of the logical value of each compact encoding (written from ziplist.c/intset.c/zipmap.c); sets are compared as multisets, everything else in order",
         rule="case = one value / payload / record sequence, distinct by construction; non-trivial = every case (each compares a decoded value with the expected one)",
         parts=[dict(pkg="./pkg/rdb", harness=["rdb"], test="^TestVerif_C12$", shards=16, budget=dict(quick=60, thorough=900),
@@ -129,7 +129,7 @@ CHECKS = {
              "key (plus version strings, time shift and hash-tag replacement on one representative per type) RestoreRdbEntry runs against a model Redis (real "
              "redigo client over an in-memory connection). Oracle: logical equality of the target key, TTL bracketed by the clock before/after the call, "
              "policy semantics (none: error and target untouched; ignore: untouched; rewrite: source value), no abort (log.Panic or Go panic) for any "
-             "accepted configuration. Coverage is reported per route actually taken (restore, bigkey, quicklist, fallback). Expiries: none, +1 h, already past, +400 years (beyond an int64 of nanoseconds), and given in seconds. Sweep F repeats every value through all three routes on a connection that keeps the arguments of Send until Flush (a model of the tool's cluster connection, whose Batch.Put retains the argument slices): a restore routine must not reuse an argument buffer before the flush.",
+             "accepted configuration. Coverage is reported per route actually taken (restore, bigkey, quicklist, fallback). Expiries: none, +1 h, already past, +400 years (beyond an int64 of nanoseconds), and given in seconds. Sweep F repeats every value through all three routes on a connection that keeps the arguments of Send until Flush (a model of the tool's cluster connection, whose Batch.Put retains the argument slices): a restore routine must not reuse an argument buffer before the flush. Sweep G: the target refuses the n-th element command (n = 1..4) of the element-wise route with -OOM, on both kinds of connection; the restore must abort or return an error, never report success.",
         note="trusts mredis' model of RESTORE/BUSYKEY/REPLACE/TTL semantics (A5), rdbgen's logical values and redigo; values with NaN scores and the stream x target-rejects combination are excluded (cannot succeed on any Redis)",
         rule="case = one point of the product; states = distinct cases; transitions = restore calls; non-trivial = every case (each one compares the final target state with the expected one)",
         parts=[dict(pkg="./redis-shake/common", harness=["common"], test="^TestVerif_C02$", shards=16, budget=dict(quick=75, thorough=1500), mem_kb=8*1024*1024)],
@@ -159,7 +159,7 @@ CHECKS = {
              "INFO without role line, slave, slave with a misleading earlier line, master, master with the role line late) is the explorer's choice; the "
              "back-off sleeps run on testing/synctest's fake clock. Full product over all rounds for maxRetries 1 and 2, all-fail default with <=2/3 deviating "
              "answers for the production value 6. Oracle: success iff the final round contains a node answering master, that node is the chosen source, "
-             "source+replicas is exactly the known node list, failure only after maxRetries+1 rounds and exactly the expected back-off, receiver state unchanged. Third part (TestVerif_C20R): the same whole-Sync() harness with the master role moving between the attempts of one syncer object: every sequence of masters over 1, 2 and 3 attempts (39 scenarios). Every PSYNC must go to the node that is master at that moment, discovery must end (no abort), and the syncer's node must name the master as source and the two other nodes as replicas. The real-factory part also runs with nodes that refuse connections (every subset pattern of one, two or three nodes down) with source.tls_enable off and on: with TLS the model nodes speak TLS with certificates of a harness CA the process trusts (SSL_CERT_FILE), through the tls.Dial seam. A reachable master must be found; when the only master is down the answer is an error after the retries, never a crash. The per-node answers include a node that answers NOAUTH (its password differs from the configured one). The restart part also has attempts at which no node reports the master role (bounded retries, then an error; never a PSYNC to a replica), with the full node list and with a shard known through a single node.",
+             "source+replicas is exactly the known node list, failure only after maxRetries+1 rounds and exactly the expected back-off, receiver state unchanged. Third part (TestVerif_C20R): the same whole-Sync() harness with the master role moving between the attempts of one syncer object: every sequence of masters over 1, 2 and 3 attempts (39 scenarios). Every PSYNC must go to the node that is master at that moment, discovery must end (no abort), and the syncer's node must name the master as source and the two other nodes as replicas. The real-factory part also runs with nodes that refuse connections (every subset pattern of one, two or three nodes down) with source.tls_enable off and on: with TLS the model nodes speak TLS with certificates of a harness CA the process trusts (SSL_CERT_FILE), through the tls.Dial seam. A reachable master must be found; when the only master is down the answer is an error after the retries, never a crash. The per-node answers include a node that answers NOAUTH (its password differs from the configured one). The restart part also has attempts at which no node reports the master role (bounded retries, then an error; never a PSYNC to a replica), with the full node list and with a shard known through a single node. Real-factory part: nodes that close the connection as soon as the first command arrives (every subset pattern, with and without a password), under a watchdog that turns a spinning probe into a hang violation.",
         note="trusts testing/synctest's fake clock (A1); the fake connection implements redigo.Conn directly (no network layer involved in this property)",
         rule="case = one complete sequence of probe answers; states = distinct answer sequences; transitions = probes; non-trivial = every completed execution (each is judged against the expected outcome)",
         parts=[dict(pkg="./redis-shake/dbSync/slotsupervisor", harness=["slotsupervisor"], test="^TestVerif_C20$", shards=16, budget=dict(quick=60, thorough=900)),
@@ -178,7 +178,7 @@ CHECKS = {
              "and no close is pending (checked on the private state at the moment of blocking), no deadlock or lost wake-up (a state with unfinished threads "
              "and nobody enabled), EOF only after draining, operations that start after a close completed fail at once with the right error. Sequentially, "
              "all words up to length 5 (7) over writes/reads of sizes {0,1,cap-1,cap,cap+1}, Buffered/Available and the four close variants are compared step "
-             "by step with a byte queue. A separate free-running -race build of the same scenario bodies looks for unsynchronised accesses. File-backed pipes also run directed words over three laps of the ring (lagging reader, writes across the ring end; 4 MiB and 12 MiB rings) in the quick tier. Besides plain closes and a custom error the closes carry the two error values the pipe itself gives a meaning to: io.ErrClosedPipe on the writer side and io.EOF on the reader side.",
+             "by step with a byte queue. A separate free-running -race build of the same scenario bodies looks for unsynchronised accesses. File-backed pipes also run directed words over three laps of the ring (lagging reader, writes across the ring end; 4 MiB and 12 MiB rings) in the quick tier. Besides plain closes and a custom error the closes carry the two error values the pipe itself gives a meaning to: io.ErrClosedPipe on the writer side and io.EOF on the reader side. Three fault scenarios close the file handle under a file-backed pipe (op X): every later call must come back (an I/O error is accepted), nobody may park while space or data are there.",
         note="the scheduler is sequentially consistent and switches only at Lock/Wait/thread end (sound for data-race-free code; races are the -race pass's job); file-backed pipes (4 MiB minimum) get a reduced set in thorough only",
         rule="execution = one schedule of one scenario (or one sequential word); states = distinct observable histories per scenario plus distinct sequential words; transitions = scheduling steps / operations; non-trivial = scenarios (each has conflicting operations by construction) and sequential words",
         parts=[dict(pkg="./pkg/libs/io/pipe", harness=["pipe"], test="^TestVerif_C09$", race_test="^TestVerif_C09Race$", race=True, race_shards=4, shards=16,
@@ -242,7 +242,7 @@ CHECKS = {
              "buffer), cut the source connection} with at most two cuts and an accept/refuse choice at every redial is executed for start offsets 0, 1, 2^31, 2^40. "
              "Oracle: every ACK is <= start + bytes received so far and never decreases; after an idle tick it equals start + bytes received; every reconnect sends "
              "PSYNC <runid> start+received+1; every fully received command is delivered by the parser exactly once across reconnects and tagged with its true end "
-             "position in the stream (the value checkpoints store). On every redial the model master refuses, accepts, or accepts and sends +CONTINUE together with the next 7 stream bytes in one write. Two more case families keep the full phase running (WaitFull open) for the first stimuli or for all of them: every ACK sent meanwhile, reconnects included, must be 0.",
+             "position in the stream (the value checkpoints store). On every redial the model master refuses, accepts, or accepts and sends +CONTINUE together with the next 7 stream bytes in one write. Two more case families keep the full phase running (WaitFull open) for the first stimuli or for all of them: every ACK sent meanwhile, reconnects included, must be 0. A master that refuses the reconnect PSYNC either closes the link or keeps it open (two dial answers); whatever the tool sends on an open link afterwards is judged like any other PSYNC.",
         note="production-size bufio buffers (32 MiB / 8 MiB) are allocated by the reconnect path itself; the first connection uses 4 KiB buffers passed as parameters; the tool gives up by design after its fourth retry, so at most two cuts are explored",
         rule="execution = (start offset, stimulus sequence, dial answers); states = distinct executions; transitions = stimuli; non-trivial = executions containing at least one acknowledgement tick",
         parts=[dict(pkg="./redis-shake/dbSync", harness=["dbsync"], test="^TestVerif_C08$", shards=16, gomaxprocs=2, budget=dict(quick=75, thorough=1200))],
@@ -257,7 +257,7 @@ CHECKS = {
              "with bufio sizes 16 and 4096 and a 4 KiB pipe (so that the 8 KiB copy buffer, the bufio layer and the pipe capacity are all crossed), and through the real "
              "sendPSyncCmd with production sizes for a smaller set. Consumers read eagerly, one byte at a time, or only after the pipe has filled (back-pressure). "
              "Oracle: bytes out of the pipe == RDB || commands exactly; run id, offset and size used == announced; only ACK 0 during the RDB phase. Dump mode is checked by "
-             "C05's second part in package run. After the hand-off the full phase is declared finished and the next acknowledged offset must be the announced offset plus exactly the bytes that followed the RDB.",
+             "C05's second part in package run. After the hand-off the full phase is declared finished and the next acknowledged offset must be the announced offset plus exactly the bytes that followed the RDB. The output files already hold the (longer) output of an earlier run when the dump starts.",
         note="the small-buffer composition repeats the 25 lines of sendPSyncCmd in the harness (sizes are constants in the tool); the production composition itself is run on a subset",
         rule="execution = (framing, RDB size, tail, bufio size, consumer mode, cut set); states = distinct executions; transitions = segments delivered; non-trivial = executions with at least one cut",
         parts=[dict(pkg="./redis-shake/dbSync", harness=["dbsync"], test="^TestVerif_C05$", shards=16, gomaxprocs=2, budget=dict(quick=75, thorough=1200)),
@@ -294,7 +294,7 @@ CHECKS = {
              "scan.key_number 1-3, big_key_threshold below/above the payloads, key_exists none/rewrite with and without a pre-existing target key, target.db, key and db "
              "filters, and key-file driven scans with 0..2*page+1 lines. Oracle after exec returns: every surviving, passing key has the source's logical value in "
              "the right database; its remaining TTL at the moment of RESTORE equals the PTTL the source answered (no expiry stays no expiry); vanished and filtered "
-             "keys are skipped without stopping; the run returns within bounded fake time; a busy key under key_exists=none may stop the run but must not be overwritten silently. A key whose DUMP answered nil must not appear on the target; an expiring key that was gone when PTTL was asked must not appear as a persistent key. Key files are also tried with one empty line at every position. Rate limit: qps 1 and 2 with a source that answers one of the later SCAN pages only after 3 s (the limiter's bucket stays full over several refill ticks, then more keys than the bucket holds arrive); the run must still copy everything and end.",
+             "keys are skipped without stopping; the run returns within bounded fake time; a busy key under key_exists=none may stop the run but must not be overwritten silently. A key whose DUMP answered nil must not appear on the target; an expiring key that was gone when PTTL was asked must not appear as a persistent key. Key files are also tried with one empty line at every position. Rate limit: qps 1 and 2 with a source that answers one of the later SCAN pages only after 3 s (the limiter's bucket stays full over several refill ticks, then more keys than the bucket holds arrive); the run must still copy everything and end. Targets with fewer databases than the source answer SELECT n with an error: rump must not finish as if the keys of that database were in place.",
         note="the order in which databases are visited is a Go map order (not controlled; the oracle is on the final state only); cluster and special-cloud scanners are out of scope",
         rule="case = one point of the product; states = distinct cases; transitions = 4 per case (scan, dump/pttl, restore, confirm phases); non-trivial = all cases",
         parts=[dict(pkg="./redis-shake", harness=["run"], test="^TestVerif_C16$", shards=16, gomaxprocs=2, budget=dict(quick=75, thorough=1200)),
@@ -310,7 +310,7 @@ CHECKS = {
              "2, 3, 8. The output is parsed back: the multiset of JSON lines must equal one line per string / list element with index / hash field / set member / zset "
              "member (score numerically equal), with db, type, expiry and base64 fields decoding to the exact bytes, plus one line per script, nothing else. For the "
              "worker hand-offs, decoderMain workers (1-3) run on channels the harness owns and every order of feeding entries and draining results is enumerated with "
-             "the workers run to quiescence in between. One RDB holds a set whose decoded text exceeds the 8 MB writer buffer next to small keys: 2 and 3 workers, feed/drain orders within 1 (thorough 2) deviations. The whole-command runs set source.rdb.parallel the way the start-up checks leave it for decode (the number of inputs; 1 for every second file). Key names and script bodies contain characters that mean something to a formatter or a JSON writer (%, backslash, <, &, U+2028).",
+             "the workers run to quiescence in between. One RDB holds a set whose decoded text exceeds the 8 MB writer buffer next to small keys: 2 and 3 workers, feed/drain orders within 1 (thorough 2) deviations. The whole-command runs set source.rdb.parallel the way the start-up checks leave it for decode (the number of inputs; 1 for every second file). Key names and script bodies contain characters that mean something to a formatter or a JSON writer (%, backslash, <, &, U+2028). The output file already holds the (longer) output of an earlier decode when the run starts.",
         note="the internal channel hand-offs of decode() itself are not interceptable without rewriting the function: they are covered by the owned-channel exploration of the worker function and by running the whole pipeline at several parallel degrees (stated limitation); streams and NaN scores are not decodable by design",
         rule="case = (file, parallel) or (entries, workers, feed/drain order); non-trivial = all (each compares the parsed output with the expected multiset)",
         parts=[dict(pkg="./redis-shake", harness=["run"], test="^TestVerif_C17$", shards=16, gomaxprocs=4, budget=dict(quick=75, thorough=600),
@@ -325,7 +325,7 @@ CHECKS = {
              "case, the checkpoint key and near misses of it, a key named lua) in each of the databases {0,1,2,10,11}: an RDB through the real syncRDBFile and "
              "restoreRDBFile (2 workers), a command stream with SELECTs, script commands in mixed case, OPINFO and a sentinel hello through the real parser and sender, "
              "a model source through the real rump executor. The set of (db,key) pairs that reached the model target must equal the reference predicate for that path; "
-             "Lua scripts / script commands pass exactly when filter.lua is off; OPINFO and sentinel hellos never arrive. The predicates are also compared directly. The incremental path is additionally crossed with target.db in {-1, every source database (filtered ones too), an unused one}; every SET carries its source database in its value, databases are re-selected in reverse order, and per (db,key) the number of forwarded SETs must equal the number sent. The full-sync, restore and rump paths are crossed with the same target.db values: every value carries a marker of its source database and the (db,key) decisions are read from the command log of the model target. Rump is also run with scan.special_cloud=tencent_cluster (one logical database, the database list does not come from INFO keyspace) under every filter configuration. The big hashes of the full-phase scenario live in database 3 (the small keys before them in database 0): every key, and every piece of a split hash, must land in its own database.",
+             "Lua scripts / script commands pass exactly when filter.lua is off; OPINFO and sentinel hellos never arrive. The predicates are also compared directly. The incremental path is additionally crossed with target.db in {-1, every source database (filtered ones too), an unused one}; every SET carries its source database in its value, databases are re-selected in reverse order, and per (db,key) the number of forwarded SETs must equal the number sent. The full-sync, restore and rump paths are crossed with the same target.db values: every value carries a marker of its source database and the (db,key) decisions are read from the command log of the model target. Rump is also run with scan.special_cloud=tencent_cluster (one logical database, the database list does not come from INFO keyspace) under every filter configuration. The big hashes of the full-phase scenario live in database 3 (the small keys before them in database 0): every key, and every piece of a split hash, must land in its own database. Full path, target.db = -1: every configuration is also run against a target that refuses SCRIPT LOAD (-BUSY); the sync must then fail rather than report success without the script.",
         note="key lists and db lists are used one kind at a time per dimension (the tool refuses whitelist and blacklist together for databases); quick crosses key and db lists on a diagonal, thorough fully",
         rule="execution = (path, configuration) carrying len(keys) x len(dbs) independent decisions (counted as transitions); non-trivial = configurations with at least one list set",
         parts=[dict(pkg="./redis-shake/dbSync", harness=["dbsync"], test="^TestVerif_C06$", shards=16, gomaxprocs=2, budget=dict(quick=75, thorough=900)),
